@@ -30,7 +30,7 @@ def leaflib() -> Dict[str, Any]:
             if d["kind"] == "ext":
                 _leaflib[name] = h.ExternalModule(
                     name=d.get("extname", name), domain=d.get("domain", "hvlib"),
-                    port_list=[h.Port(name=p, width=w) for p, w in d["ports"]], paramtype=TagParams)
+                    port_list=[h.Port(name=p, width=w) for p, w in d["ports"]], paramtype=dict if d.get("dictparams") else TagParams)
         _leaflib["R"] = h.primitives.IdealResistor
         _leaflib["C"] = h.primitives.IdealCapacitor
         _leaflib["VCVS"] = h.primitives.VoltageControlledVoltageSource
@@ -44,7 +44,7 @@ def leaf_call(leafname: str, tag: Optional[int]):
     if leafname not in lib and leafname in refsem.LEAVES and refsem.LEAVES[leafname]["kind"] == "ext":
         d = refsem.LEAVES[leafname]
         lib[leafname] = h.ExternalModule(name=d.get("extname", leafname), domain=d.get("domain", "hvlib"),
-                                         port_list=[h.Port(name=p, width=w) for p, w in d["ports"]], paramtype=TagParams)
+                                         port_list=[h.Port(name=p, width=w) for p, w in d["ports"]], paramtype=dict if d.get("dictparams") else TagParams)
     if leafname == "R":
         return lib["R"](r=1000 + tag)
     if leafname == "C":
@@ -53,6 +53,8 @@ def leaf_call(leafname: str, tag: Optional[int]):
         return lib["VCVS"](gain=1000 + tag)
     if leafname == "MOS":
         return lib["MOS"](nf=1 + tag)
+    if refsem.LEAVES.get(leafname, {}).get("dictparams"):
+        return lib[leafname]({"tag": tag, "w": 2})
     return lib[leafname](tag=tag)
 
 
